@@ -46,6 +46,8 @@ def run(ctx):
                         calls.append((i, name))
                         if oc[0] == 'ok':
                             return oc[1](i) if callable(oc[1]) else oc[1]
+                        if oc[0] == 'okfn':
+                            return oc[1](*a, **kw)
                         if oc[0] == 'empty':
                             return False
                         if oc[0] == 'raise':
@@ -263,6 +265,55 @@ def run(ctx):
         if got != want and not (want == 'error' and got == 'false'):
             ctx.violation('getinputvalues wrote a value that is not the first responding provider\'s (or did not fail)',
                           {'op': 'query getinputvalues', 'outcomes': outs, 'observed': got, 'expected': want})
+    # ---- getblock page by page: every page, cold or served from the cache, holds exactly the transactions the provider has at those
+    # positions of the block
+    from datetime import datetime as _dt, timezone as _tz
+    blk_txs = []
+    for j in range(7):
+        kk = Key(3000 + j)
+        tj = Transaction(network='bitcoin', witness_type='segwit')
+        tj.add_input(bytes([0x90 + j]) * 32, j, keys=[kk], script_type='sig_pubkey', value=60000 + j, witness_type='segwit')
+        tj.add_output(50000 + j, lock_script=b'\x00\x14' + bytes([0x70 + j]) * 20)
+        tj.sign([kk])
+        blk_txs.append(tj.raw_hex())
+    def block_answer(i):
+        def answer(blockid, parse_transactions=True, page=1, limit=25):
+            txs = []
+            for pos, rh in enumerate(blk_txs):
+                tq = Transaction.parse_hex(rh)
+                tq.block_height, tq.confirmations, tq.status, tq.date = 700500, 100, 'confirmed', _dt(2021, 1, 1, tzinfo=_tz.utc)
+                tq.inputs[0].value = 60000 + pos
+                tq.update_totals()
+                txs.append(tq)
+            page_txs = txs[(page - 1) * limit: page * limit]
+            return {'bits': 0x1d00ffff, 'depth': 10, 'block_hash': '00' * 31 + '%02x' % (i + 1), 'height': 700500, 'merkle_root': 'ab' * 32, 'nonce': 7,
+                    'prev_block': 'cd' * 32, 'time': 1600000000, 'tx_count': len(blk_txs), 'txs': page_txs if parse_transactions else [t_.txid for t_ in page_txs],
+                    'version': 1, 'page': page, 'pages': None, 'limit': limit}
+        return answer
+    want_ids = [Transaction.parse_hex(rh).txid for rh in blk_txs]
+    for limit_ in (2, 3):
+        for order in ([1, 2, 3, 4], [2, 1, 3], [3, 3, 1, 2], [1, 1, 2, 2]):
+            srv = new_service(2)
+            for i in range(2):
+                srv.providers['fake%d' % i]['priority'] = 50 - i
+            script[0] = {'blockcount': ('ok', 800000), 'getblock': ('raise',)}
+            # (a callable answer is called with the provider index: hand back the paging function itself)
+            script[1] = {'blockcount': ('ok', 800000), 'getblock': ('okfn', block_answer(1))}
+            for pg in order:
+                ctx.evals += 1
+                ctx.count('getblock-page')
+                ctx.nontrivial.add(hash(('getblock', limit_, tuple(order), pg)))
+                try:
+                    b_ = srv.getblock(700500, parse_transactions=True, page=pg, limit=limit_)
+                    got = [t_.txid for t_ in b_.transactions] if b_ else 'false'
+                except Exception as e:
+                    got = 'error:' + type(e).__name__
+                exp = want_ids[(pg - 1) * limit_: pg * limit_]
+                if got != exp and not (got in ('false',) or str(got).startswith('error')):
+                    ctx.violation('a page of a block holds other transactions than the provider has at those positions (cold or from the cache)',
+                                  {'op': 'query getblock pages', 'limit': limit_, 'pages_asked': order, 'page': pg, 'from_cache': bool(srv.results_cache_n),
+                                   'observed': [want_ids.index(x) if x in want_ids else x for x in got], 'expected': list(range((pg - 1) * limit_, min(pg * limit_, len(want_ids))))})
+                    break
     # ---- histories of cached queries (gettransaction on several txids): the Lean cache + provider machine --------------
     txs = []
     for j in range(3):
